@@ -218,6 +218,9 @@ PROPS = {
             part('sub', SUB, 150, 3000, monitors=[M.mon_c11], props=['C11'], chunk=60, snap='rows'),
             part('error-sqlite', ERROR, 40, 800, monitors=[M.mon_c11], props=['C11'], chunk=10, snap='rows', evict=0.0, store='sqlite'),
             part('hooks-sqlite', GEN, 30, 600, monitors=[M.mon_c11], props=['C11'], chunk=10, sub='hooks', snap='rows', store='sqlite'),
+            part('timeout', TIMEOUT, 200, 4000, monitors=[M.mon_c11], props=['C11'], chunk=60, snap='rows'),
+            part('b2b', ACTIONS, 300, 6000, monitors=[M.mon_c11], props=['C11'], sub='b2b'),
+            part('duel', ACTIONS, 150, 3000, monitors=[M.mon_c11], props=['C11'], sub='duel'),
         ],
     },
     'C05': {
